@@ -17,7 +17,12 @@ structure NodeObj where
   labels : Labels
   cidrs : List Cidr
   deleting : Bool
+  /-- `spec.podCIDRs` holds a single string that does not parse as a CIDR (then `cidrs = []`) -/
+  junk : Bool := false
 deriving DecidableEq, Repr, Inhabited
+
+/-- `len(node.Spec.PodCIDRs) > 0` -/
+def NodeObj.hasCidrs (n : NodeObj) : Bool := n.junk || !n.cidrs.isEmpty
 
 structure CCObj where
   name : String
@@ -86,8 +91,8 @@ def Api.patchNode (a : Api) (name : String) (cidrs : List Cidr) : Api × Bool :=
   match getNode a.nodes name with
   | none => (a, false)
   | some n =>
-    if n.cidrs.isEmpty then ({ a with nodes := putNode a.nodes { n with cidrs := cidrs } }, true)
-    else if n.cidrs = cidrs then (a, true)
+    if !n.hasCidrs then ({ a with nodes := putNode a.nodes { n with cidrs := cidrs } }, true)
+    else if !n.junk && n.cidrs = cidrs then (a, true)
     else (a, false)
 
 /-- Update of a ClusterCIDR (only finalizers can differ): optimistic concurrency on the resource
@@ -118,12 +123,16 @@ def attemptUpdate (a : Api) (name : String) (rv : Nat) (fins : List String) (w :
 
 /-- `ReleaseCIDR(node)`: `true` = no error -/
 def releaseCIDR (al : Alloc) (n : NodeObj) : Alloc × Bool :=
-  if n.cidrs.isEmpty then (al, true) else al.releaseNode n.name n.labels n.cidrs
+  if !n.hasCidrs then (al, true)
+  else if n.junk then (al, false)   -- no associated entry, or the string fails to parse: an error either way
+  else al.releaseNode n.name n.labels n.cidrs
 
 /-- `occupyCIDRs(node)` for a node with pod CIDRs: `true` = no error -/
 def occupyCIDRs (al : Alloc) (n : NodeObj) : Alloc × Bool :=
   let l := al.ordered n.labels true
-  if l.isEmpty then (al, false) else al.occupyNode n.name n.cidrs l
+  if l.isEmpty then (al, false)
+  else if n.junk then (al, false)   -- parse error inside the loop, nothing occupied yet
+  else al.occupyNode n.name n.cidrs l
 
 /-- the PATCH retry loop of `updateCIDRsAllocation` (`cidrUpdateRetries` = 3) -/
 def patchLoop (a : Api) (name : String) (cidrs : List Cidr) : Nat → List WOut → List (String × List Cidr × String) →
@@ -143,8 +152,8 @@ def updateCIDRsAllocation (s : Sys) (name : String) (cidrs : List Cidr) (i : Nat
     let (al, _) := s.alloc.releaseAll i cidrs
     ({ s with alloc := al }, { res := "err" })
   | some n2 =>
-    if n2.cidrs = cidrs then (s, { res := "ok" })
-    else if !n2.cidrs.isEmpty then
+    if !n2.junk && n2.cidrs = cidrs then (s, { res := "ok" })
+    else if n2.hasCidrs then
       match s.alloc.releaseAll i cidrs with
       | (al, true) => ({ s with alloc := al }, { res := "ok" })
       | (al, false) => ({ s with alloc := al }, { res := "err" })
@@ -163,7 +172,7 @@ def updateCIDRsAllocation (s : Sys) (name : String) (cidrs : List Cidr) (i : Nat
 /-- `AllocateOrOccupyCIDR(node)`; `refresh` = the cache entry of the node is brought up to date
 between the two reads of the item -/
 def allocateOrOccupy (s : Sys) (n : NodeObj) (refresh : Bool) (ws : List WOut) : Sys × Obs :=
-  if !n.cidrs.isEmpty then
+  if n.hasCidrs then
     match occupyCIDRs s.alloc n with
     | (al, true) => ({ s with alloc := al }, { res := "ok" })
     | (al, false) => ({ s with alloc := al }, { res := "err" })
@@ -181,20 +190,22 @@ def allocateOrOccupy (s : Sys) (n : NodeObj) (refresh : Bool) (ws : List WOut) :
           else s1
         updateCIDRsAllocation s2 n.name cidrs i ws
 
-/-- one node work item (`processNextNodeWorkItem` → `syncNode`) -/
+/-- `syncNode` on the cached node -/
+def procNodeCore (s0 : Sys) (name : String) (refresh : Bool) (ws : List WOut) : Sys × Obs :=
+  match getNode s0.nodeView name with
+  | none => (s0, { res := "ok" })
+  | some n =>
+    if n.deleting then
+      match releaseCIDR s0.alloc n with
+      | (al, true) => ({ s0 with alloc := al }, { res := "ok" })
+      | (al, false) => ({ s0 with alloc := al }, { res := "err" })
+    else allocateOrOccupy s0 n refresh ws
+
+/-- one node work item (`processNextNodeWorkItem`): take the key, sync, then
+error ⇒ `AddRateLimited`, success ⇒ `Forget` -/
 def procNode (s : Sys) (name : String) (refresh : Bool) (ws : List WOut) : Sys × Obs :=
-  let s0 := { s with nodeQ := qDel s.nodeQ name }
-  let (s1, o) : Sys × Obs :=
-    match getNode s0.nodeView name with
-    | none => (s0, { res := "ok" })
-    | some n =>
-      if n.deleting then
-        match releaseCIDR s0.alloc n with
-        | (al, true) => ({ s0 with alloc := al }, { res := "ok" })
-        | (al, false) => ({ s0 with alloc := al }, { res := "err" })
-      else allocateOrOccupy s0 n refresh ws
-  -- error ⇒ AddRateLimited, success ⇒ Forget
-  if o.res == "err" then ({ s1 with nodeQ := qAdd s1.nodeQ name }, o) else (s1, o)
+  let r := procNodeCore { s with nodeQ := qDel s.nodeQ name } name refresh ws
+  if r.2.res == "err" then ({ r.1 with nodeQ := qAdd r.1.nodeQ name }, r.2) else r
 
 def hasFin (o : CCObj) : Bool := o.finalizers.contains finalizerName
 def needFin (o : CCObj) : Bool := !o.deleting && !hasFin o
@@ -220,17 +231,19 @@ def reconcileDelete (s : Sys) (o : CCObj) (w : WOut) : Sys × Obs :=
       ({ s with alloc := al, api := api' }, { res := if okk then "ok" else "err", ccWrites := [(o.name, fins, lbl)] })
   else (s, { res := "ok" })
 
-/-- one ClusterCIDR work item (`processNextCIDRWorkItem` → `syncClusterCIDR`) -/
+/-- `syncClusterCIDR` on the cached object -/
+def procCCCore (s0 : Sys) (name : String) (w : WOut) : Sys × Obs :=
+  match getCC s0.ccView name with
+  | none => (s0, { res := "ok" })
+  | some obj =>
+    if obj.deleting then reconcileDelete s0 obj w
+    else if needFin obj then createClusterCIDR s0 obj false w
+    else (s0, { res := "ok" })
+
+/-- one ClusterCIDR work item (`processNextCIDRWorkItem`) -/
 def procCC (s : Sys) (name : String) (w : WOut) : Sys × Obs :=
-  let s0 := { s with ccQ := qDel s.ccQ name }
-  let (s1, o) : Sys × Obs :=
-    match getCC s0.ccView name with
-    | none => (s0, { res := "ok" })
-    | some obj =>
-      if obj.deleting then reconcileDelete s0 obj w
-      else if needFin obj then createClusterCIDR s0 obj false w
-      else (s0, { res := "ok" })
-  if o.res == "err" then ({ s1 with ccQ := qAdd s1.ccQ name }, o) else (s1, o)
+  let r := procCCCore { s with ccQ := qDel s.ccQ name } name w
+  if r.2.res == "err" then ({ r.1 with ccQ := qAdd r.1.ccQ name }, r.2) else r
 
 /-- construction: bootstrap every listed ClusterCIDR (in name order, as the API lists them),
 occupy the service ranges, occupy the pod CIDRs of every listed node -/
@@ -244,7 +257,7 @@ def bootCCs (s : Sys) : List CCObj → List WOut → List (String × List String
 
 def bootNodes (al : Alloc) : List NodeObj → Alloc
   | [] => al
-  | n :: rest => if n.cidrs.isEmpty then bootNodes al rest else bootNodes (occupyCIDRs al n).1 rest
+  | n :: rest => if !n.hasCidrs then bootNodes al rest else bootNodes (occupyCIDRs al n).1 rest
 
 def sortCCObjs (l : List CCObj) : List CCObj :=
   (sortNames (l.map (·.name))).filterMap (fun n => getCC l n)
@@ -271,6 +284,8 @@ inductive Ev where
   | ccAdd (name : String) (spec : CCSpec)
   | ccDel (name : String)
   | ccGen (name : String) (g : Nat)
+  | ccAddFin (name : String) (fin : String)
+  | nodeSetCIDRs (name : String) (cidrs : List Cidr)
   | deliverNode (name : String) (tomb : Bool)
   | deliverCC (name : String)
   | procNode (name : String) (refresh : Bool) (ws : List WOut)
@@ -307,6 +322,16 @@ def step (s : Sys) : Ev → Sys × Obs
     match getCC s.api.ccs name with
     | none => (s, {})
     | some o => ({ s with api := { s.api with ccs := putCC s.api.ccs { o with generation := g, rv := o.rv + 1 } } }, {})
+  | .ccAddFin name fin =>
+    -- another controller adds its own finalizer
+    match getCC s.api.ccs name with
+    | none => (s, {})
+    | some o =>
+      if o.finalizers.contains fin then (s, {})
+      else ({ s with api := { s.api with ccs := putCC s.api.ccs { o with finalizers := o.finalizers ++ [fin], rv := o.rv + 1 } } }, {})
+  | .nodeSetCIDRs name cidrs =>
+    -- somebody else assigns pod CIDRs to a node that has none (the only change the server admits)
+    ({ s with api := (s.api.patchNode name cidrs).1 }, {})
   | .deliverNode name tomb =>
     match getNode s.api.nodes name with
     | some cur => ({ s with nodeView := putNode s.nodeView cur, nodeQ := qAdd s.nodeQ name }, {})
